@@ -196,6 +196,29 @@ func c13Exact(cx *explore.Ctx, q run.Query, got []lang.SemanticToken, body *hcls
 					inZone = true
 				}
 			}
+			if x.resolves && inZone && n > 0 {
+				// a plain traversal: one token per step, on the step's own extent (name / key without dot and brackets)
+				if want := stepExtents(body, r, cx.Src); want != nil {
+					cx.L.Count("exact_step_extents", 1)
+					gotSteps := map[string]bool{}
+					for _, t := range got {
+						if r.Start.Byte <= t.Range.Start.Byte && t.Range.End.Byte <= r.End.Byte {
+							gotSteps[fmt.Sprintf("%d-%d", t.Range.Start.Byte, t.Range.End.Byte)] = true
+						}
+					}
+					for _, w := range want {
+						if !gotSteps[w] {
+							add("tokens:reference-step-extent", "hcl-referenceStep", fmt.Sprintf("the resolved reference at %s: no token on the step at bytes %s (tokens at %v)", fmtRange(r), w, boolKeys(gotSteps)))
+							break
+						}
+						delete(gotSteps, w)
+					}
+					for g := range gotSteps {
+						add("tokens:reference-step-extent", "hcl-referenceStep", fmt.Sprintf("the resolved reference at %s: a token at bytes %s is not the extent of any of its steps %v", fmtRange(r), g, want))
+						break
+					}
+				}
+			}
 			if x.resolves && n == 0 && inZone {
 				add("tokens:missing-reference-steps", "hcl-referenceStep:"+exprPathAt(body, r), fmt.Sprintf("the reference at %s resolves to a collected declaration but none of its steps has a token", fmtRange(r)))
 			}
@@ -271,4 +294,54 @@ func exprPathAt(body *hclsyntax.Body, r hcl.Range) string {
 		return chain[0]
 	}
 	return strings.Join(chain, ">")
+}
+
+
+// stepExtents returns the byte extents ("start-end") of the steps of the plain traversal whose range is r:
+// the root name, attribute names (without the dot), index keys (without brackets; a legacy ".N" index without
+// the dot). nil if r is not a plain absolute traversal or a key is not a plain literal.
+func stepExtents(body *hclsyntax.Body, r hcl.Range, src []byte) []string {
+	var st *hclsyntax.ScopeTraversalExpr
+	_ = hclsyntax.VisitAll(body, func(n hclsyntax.Node) hcl.Diagnostics {
+		if x, ok := n.(*hclsyntax.ScopeTraversalExpr); ok && x.Range() == r {
+			st = x
+		}
+		return nil
+	})
+	if st == nil {
+		return nil
+	}
+	var out []string
+	for _, step := range st.Traversal {
+		sr := step.SourceRange()
+		a, b := sr.Start.Byte, sr.End.Byte
+		if a < 0 || b > len(src) || a >= b {
+			return nil
+		}
+		switch step.(type) {
+		case hcl.TraverseRoot:
+		case hcl.TraverseAttr:
+			if src[a] != '.' {
+				return nil
+			}
+			a++
+		case hcl.TraverseIndex:
+			switch {
+			case src[a] == '[' && src[b-1] == ']':
+				a, b = a+1, b-1
+				// blanks inside the brackets make the key's extent ambiguous
+				if strings.TrimSpace(string(src[a:b])) != string(src[a:b]) {
+					return nil
+				}
+			case src[a] == '.':
+				a++
+			default:
+				return nil
+			}
+		default:
+			return nil
+		}
+		out = append(out, fmt.Sprintf("%d-%d", a, b))
+	}
+	return out
 }
